@@ -496,6 +496,12 @@ def c18(sc, V):
                 tg = set(l[1] for l in sigs)
                 if tg - {p["pid"]}:
                     f.append({"sig": "signal-not-precise", "step": s.n, "msg": "pid %s addressed, %r signalled" % (p["pid"], sorted(tg))})
+        # "that worker's children when asked": with childpid only that child of the given worker is addressed
+        if s.cmd() == "signal" and p.get("childpid") and not p.get("recursive") and not p.get("children"):
+            tg = set(l[1] for l in sigs)
+            if tg - {p["childpid"]}:
+                f.append({"sig": "signal-not-precise", "step": s.n,
+                          "msg": "childpid %r of worker %r addressed, %r signalled" % (p["childpid"], p.get("pid"), sorted(tg))})
         errs = [r for r in s.of("rep") if r[3] == "error" and r[4] == "3"]
         if errs and sigs:
             f.append({"sig": "refused-signal-sent", "step": s.n, "msg": "request refused as invalid but a signal was sent"})
